@@ -11,13 +11,18 @@ MANIFEST = {
             "C14_expression_print_parse_roundtrip proves, for every well-formed expression of any size and nesting (identifiers, i64 and "
             "string literals, object / array literals, member / index / call chains, all unary, binary and conditional operators), that "
             "parsing the printed text yields exactly that expression and stops exactly at the end of the binding (parenthesisation, "
-            "operator spacing, `?.` / `--` / `++` avoidance, literal escapes are all covered by it). (2) escaping theorems: a re-printed "
+            "operator spacing, `?.` / `--` / `++` avoidance, literal escapes are all covered by it); the value-level theorems "
+            "(C14_static_value_roundtrip, C14_single_binding_value_roundtrip, C14_mixed_value_roundtrip) prove that the value parser "
+            "(static pieces with character references, bindings, the chain it builds) reads the printed text of a static value, of a "
+            "single binding and of every alternation of text pieces and bindings back as the same value, for any entity table that "
+            "knows &lt; &quot; &amp; and for both callers' `until` predicates. (2) escaping theorems: a re-printed "
             "static text never contains `{{`, `<` or a raw quote and decodes to itself under the real entity scanner. Decision of the "
             "property itself on the code: for generated well-formed, hand-written and mutated templates, print -> parse must raise "
             "nothing above Note, print is a fixpoint after one round (with and without mangling), and the re-parsed template must "
             "create and update identically to the original under node.",
-    "note": "Partial: float literals and scope references are outside the round-trip theorem (floats are opaque text in the model); "
-            "there is no Coq model of the tag-level printer, whose round trip is established by execution only. Known finding "
+    "note": "Partial: float literals and scope references are outside the round-trip theorems (floats are opaque text in the model); "
+            "there is no Coq model of the tag-level printer (elements, attributes, structural tags), whose round trip is established "
+            "by execution only. Known finding "
             "KF-C14-1: with mangling, wx:for bodies refer to _$n but the printed tag declares no wx:for-item / wx:for-index (pinned by "
             "the for_scope tests), so mangled prints of templates with wx:for are excluded from the behavioural comparison.",
     "technique": "Coq proof (print/parse round trip of expressions by structural induction; escaping lemmas) + model/implementation "
@@ -30,7 +35,8 @@ THEOREMS = ["C14_static_text_roundtrip", "C14_static_text_no_binding_start", "C1
             "C14_printer_tables_ok", "C14_printer_paren_decision", "C14_text_piece_then_binding",
             "C14_static_text_roundtrip_real_scanner", "C14_expression_string_literal_roundtrip",
             "C14_expression_print_parse_roundtrip", "C14_expression_roundtrip_any_tail", "C14_integer_literal_roundtrip",
-            "C14_binding_print_parse_roundtrip"]
+            "C14_binding_print_parse_roundtrip", "C14_mixed_value_roundtrip", "C14_static_value_roundtrip",
+            "C14_single_binding_value_roundtrip"]
 
 
 def _norm_nodes(nodes):
